@@ -45,8 +45,8 @@ analysed in the RESULTS.md of the property: they are equivalent mutants or outsi
 '''+'\n'.join(mut)+'''
 
 ### 8.2 Independently seeded changes (`seeded/<ID>-<k>/`: patch.diff, demonstration, note.md, meta.json)
-Four rounds: rounds 1-3 over all 33 properties (round 3 in two batches), round 4 over the 20 properties with the richest state
-(C01-C10, C14-C18, C22, C23, C25, C26, C28). For every property and round a fresh sub-agent that saw only the property text (rounds 2-4: plus a
+Four rounds over all 33 properties (rounds 3 and 4 in two batches each: first the 20 properties with the richest state -
+C01-C10, C14-C18, C22, C23, C25, C26, C28 - then, with a shorter budget per agent, the other 13). For every property and round a fresh sub-agent that saw only the property text (rounds 2-4: plus a
 one-paragraph description of the earlier changes of that property, to avoid repeats; rounds 3 and 4 asked explicitly for changes that need
 something specific to show - a size, a call order, a configuration, a fault - round 4 also for violations reachable by a
 legitimate caller only) and its own scratch worktree - nothing from /verif - wrote two
@@ -65,7 +65,11 @@ encoders); each became a generated class, except a Drop before Close through the
 of the repository refuses with a panic. Round 4: %d of its %d confirmed changes were missed at first (a validator cut off for more than 100 frames, an index
 object that served a group of another size before, frame-independent event IDs, an application that keeps editing its builders, a built
 and abandoned attempt at the same epoch, unverified Lamport claims, Clear during a cascade, full task queues, 16+ peers, flushes above
-100 KiB, repeated flush IDs, consecutive Atropoi with non-nested views of a fork); the last one (C03-8) was not reached by the random
+100 KiB, repeated flush IDs, consecutive Atropoi with non-nested views of a fork; in the second batch: builders derived from a live set,
+caller arrays reused after a constructor, repeated IDs, encodings above 64 KiB, a state object decoded in place, reused buffers with spare
+capacity, 2^16 events between two queries, batches written twice, keys beyond 64 bytes with their prefix, a failing underlying Close,
+concurrent first opens, caller-owned Keys lists, "no limit" bounds and timeouts, an over-release, shared tables, power-of-two widths,
+repeated decodes, slices longer than the width, results held across later calls); the last one (C03-8) was not reached by the random
 generator even after a class counter and a generator mode had been added for it (7000 DAGs without a block whose cheater list is shorter
 than the previous one's), so a constructed family of DAGs was added as its own unit (TestC03SplitView; 99%% of its cases contain such
 blocks); three are caught in the thorough tier only (C01-8, C05-8, C28-8). One round-4 delivery (%s) could not be confirmed (its demonstration passes with the change applied in
